@@ -531,4 +531,71 @@ theorem checkEqualWith_symm (close : Rat → Rat → Bool) (hs : ∀ x y, close 
   simp only [h1, h2, bind, Except.bind, hd]
   rw [allcloseL_symm close hs (coordWith am c1 (ratsOfNats c1.shape))]
 
+/-! ### in-place changes of the geometry keep it well formed -/
+theorem setAt_length {α} (l : List α) (p : Nat) (x : α) : (setAt l p x).length = l.length := by
+  induction l generalizing p with
+  | nil => rfl
+  | cons y ys ih => cases p <;> simp [setAt, ih]
+
+theorem defaultOriginWith_length (mm : AxisMap) (dims : List Rat) : (defaultOriginWith mm dims).length = mm.length := by
+  unfold defaultOriginWith
+  have : ∀ (l : List ((Nat × Bool) × Nat)) (init : List Rat),
+      (l.foldl (fun o q => if q.1.2 then setAt o q.1.1 (listGetD dims q.2 0) else o) init).length = init.length := by
+    intro l
+    induction l with
+    | nil => intro init; rfl
+    | cons q l ih =>
+      intro init
+      simp only [List.foldl_cons]
+      rw [ih]
+      split
+      · exact setAt_length _ _ _
+      · rfl
+  rw [this]; simp
+
+theorem defaultOrigin_length (d : Dim) (dims o : List Rat) (h : defaultOrigin d dims = .ok o) : o.length = d.toNat := by
+  unfold defaultOrigin at h
+  cases d
+  · have hm : matMap .d1 = .ok [(0, false)] := by decide
+    rw [hm] at h; simp only [Except.map] at h; injection h with h; rw [← h, defaultOriginWith_length]; rfl
+  · have hm : matMap .d2 = .ok [(1, true), (0, false)] := by decide
+    rw [hm] at h; simp only [Except.map] at h; injection h with h; rw [← h, defaultOriginWith_length]; rfl
+  · have hm : matMap .d3 = .ok [(2, true), (0, false), (1, true)] := by decide
+    rw [hm] at h; simp only [Except.map] at h; injection h with h; rw [← h, defaultOriginWith_length]; rfl
+
+theorem applyOp_ok (cs cs' : CS) (op : GeomOp) (hcs : cs.ok) (hop : op.okFor cs.dim) (h : cs.applyOp op = .ok cs') :
+    cs'.ok ∧ cs'.dim = cs.dim ∧ cs'.shape = cs.shape := by
+  cases op with
+  | touch => simp only [CS.applyOp] at h; injection h with h; subst h; exact ⟨hcs, rfl, rfl⟩
+  | resetOrigin =>
+    simp only [CS.applyOp] at h
+    cases hd : defaultOrigin cs.dim cs.dims with
+    | error e => rw [hd] at h; simp [Except.map] at h
+    | ok o =>
+      rw [hd] at h; simp only [Except.map] at h; injection h with h; subst h
+      exact ⟨⟨hcs.shapeLen, hcs.dimsLen, defaultOrigin_length _ _ _ hd, hcs.shapePos, hcs.dimsPos⟩, rfl, rfl⟩
+  | setOrigin o =>
+    simp only [CS.applyOp] at h; injection h with h; subst h
+    exact ⟨⟨hcs.shapeLen, hcs.dimsLen, hop, hcs.shapePos, hcs.dimsPos⟩, rfl, rfl⟩
+  | setDimensions D =>
+    simp only [CS.applyOp] at h; injection h with h; subst h
+    exact ⟨⟨hcs.shapeLen, hop.1, hcs.originLen, hcs.shapePos, hop.2⟩, rfl, rfl⟩
+
+theorem applyOps_ok (ops : List GeomOp) : ∀ (cs cs' : CS), cs.ok → (∀ op ∈ ops, op.okFor cs.dim) →
+    cs.applyOps ops = .ok cs' → cs'.ok ∧ cs'.dim = cs.dim ∧ cs'.shape = cs.shape := by
+  induction ops with
+  | nil =>
+    intro cs cs' hcs _ h
+    simp only [CS.applyOps, List.foldlM_nil, pure, Except.pure] at h
+    injection h with h; subst h; exact ⟨hcs, rfl, rfl⟩
+  | cons op ops ih =>
+    intro cs cs' hcs hop h
+    simp only [CS.applyOps, List.foldlM_cons, bind, Except.bind] at h
+    split at h
+    · exact absurd h (by simp)
+    · next c1 h1 =>
+      obtain ⟨a, b, c⟩ := applyOp_ok cs c1 op hcs (hop op (by simp)) h1
+      obtain ⟨a', b', c'⟩ := ih c1 cs' a (fun o ho => by rw [b]; exact hop o (by simp [ho])) h
+      exact ⟨a', by rw [b', b], by rw [c', c]⟩
+
 end Darsia
